@@ -337,6 +337,13 @@ struct World
                     int ord = (int)o.I(4);
                     ord = ((ord % (H.m.nc + 2)) + (H.m.nc + 2)) % (H.m.nc + 2);
                     int before = hint[hv];
+                    if (kind == OP_EVAL_HINT && (o.I(5) & 4))
+                    {
+                        // a caller without a cursor passes a null hint: the route must degrade to the plain one
+                        Vec z = H.p->evaluate(t, static_cast<int *>(nullptr), ord);
+                        check_same(z, eval_checked(H, t, ord), "hinted(null)", "plain", t, ord);
+                        ctx.count("probe.null_hint");
+                    }
                     Vec a = (ord <= 6 && (o.I(4) & 8)) ? H.p->evaluate(t, &hint[hv], static_cast<SplineTrajectory::Deriv>(ord))
                                                         : H.p->evaluate(t, &hint[hv], ord);
                     Vec b = eval_checked(H, t, ord);
